@@ -214,7 +214,7 @@ def rule_b(chk, prog):
                         chk.ok("C10.b", where, norm(st), "wall-clock value only stored in the execution-time field")
                     else:
                         chk.violation("C10.b", where, norm(n), "wall-clock time flows into something else than the execution-time fields", loc=fi.loc(n))
-            # iteration over sets
+            # order-sensitive consumers of sets
             it = None
             if isinstance(n, (ast.For, ast.AsyncFor)):
                 it = n.iter
@@ -223,6 +223,48 @@ def rule_b(chk, prog):
             if it is not None:
                 if _is_set_expr(it, fi):
                     chk.violation("C10.b", where, norm(it)[:80], "iteration over a set: order depends on the hash seed", loc=fi.loc(it))
+    # every other use of a set-valued expression must be order-insensitive
+    ORDER_FREE_CALLS = {"len", "sorted", "set", "frozenset", "min", "max", "any", "all", "bool", "isinstance", "print"}
+    SET_METHODS = {"add", "discard", "remove", "update", "union", "intersection", "difference", "symmetric_difference", "issubset",
+                   "issuperset", "isdisjoint", "copy", "clear", "intersection_update", "difference_update"}
+    n_sets = 0
+    for fi in prog.funcs.values():
+        where = f"{fi.module}:{fi.qualname}"
+        parent = {}
+        for x in walk_no_nested(fi.node):
+            for c in ast.iter_child_nodes(x):
+                parent[id(c)] = x
+        for x in walk_no_nested(fi.node):
+            if not isinstance(x, ast.expr) or not _is_set_expr(x, fi):
+                continue
+            if isinstance(x, ast.Name) and isinstance(x.ctx, ast.Store):
+                continue
+            n_sets += 1
+            par = parent.get(id(x))
+            ok = False
+            if isinstance(par, ast.Compare) and any(isinstance(o, (ast.In, ast.NotIn)) for o in par.ops) and x in par.comparators:
+                ok = True
+            elif isinstance(par, ast.Compare) and all(isinstance(o, (ast.Eq, ast.NotEq, ast.LtE, ast.GtE, ast.Lt, ast.Gt)) for o in par.ops):
+                ok = True          # set comparisons
+            elif isinstance(par, ast.Call) and x in par.args and isinstance(par.func, ast.Name) and par.func.id in ORDER_FREE_CALLS:
+                ok = True
+            elif isinstance(par, ast.Attribute) and par.attr in SET_METHODS:
+                ok = True
+            elif isinstance(par, ast.Call) and isinstance(par.func, ast.Attribute) and par.func.attr in SET_METHODS and x in par.args:
+                ok = True
+            elif isinstance(par, ast.BinOp) and isinstance(par.op, (ast.BitOr, ast.BitAnd, ast.Sub, ast.BitXor)):
+                ok = True
+            elif isinstance(par, (ast.Assign, ast.AugAssign, ast.AnnAssign, ast.If, ast.While, ast.BoolOp, ast.UnaryOp, ast.Expr, ast.IfExp)):
+                ok = True          # binding / truth value; the bound name is followed by reaching definitions
+            elif isinstance(par, (ast.For, ast.AsyncFor, ast.comprehension)) and par.iter is x:
+                continue           # reported above as iteration
+            if ok:
+                chk.ok("C10.b", where, norm(par)[:80] if par is not None else norm(x), "order-insensitive use of a set", nontrivial=False)
+            else:
+                chk.violation("C10.b", where, norm(par)[:90] if par is not None else norm(x),
+                              f"the set `{norm(x)[:40]}` is turned into / consumed as an ordered sequence: its order depends on the hash seed of the "
+                              "process, so do the results", loc=fi.loc(x))
+    chk.notes["set_valued_expressions"] = n_sets
     chk.floor("C10.b", calls, 400, "call sites scanned")
     chk.ok("C10.b", "aquacrop", f"{calls} call sites / all loops", "no nondeterminism source, no set iteration")
     # os.getenv selecting imports: both branches import the same symbols from the same modules
